@@ -32,7 +32,9 @@ def nodeSpec (j : Json) : D NodeSpec := do
     isolating := ← bool (← field j "isolating")
     defining := ← bool (← field j "defining")
     code := ← bool (← field j "code")
-    attrs := ← listOf attrSpec (← field j "attrs") }
+    attrs := ← listOf attrSpec (← field j "attrs")
+    definingAsContext := ← bool (fieldD j "definingAsContext" (Json.bool false))
+    definingForContent := ← bool (fieldD j "definingForContent" (Json.bool false)) }
 
 def markSpec (j : Json) : D MarkSpec := do
   return {
@@ -59,7 +61,8 @@ def eNodeType (t : NodeType) : Json :=
   Json.mkObj [("name", Json.str t.name), ("isText", Json.bool t.isText), ("isInline", Json.bool t.isInline),
     ("isLeaf", Json.bool t.isLeaf), ("isAtom", Json.bool t.isAtom), ("inlineContent", Json.bool t.inlineContent),
     ("isolating", Json.bool t.isolating), ("defining", Json.bool t.defining), ("code", Json.bool t.code),
-    ("dfa", eDfa t.dfa), ("markSet", eOpt eNats t.markSet), ("attrs", eAttrDecls t.attrs)]
+    ("dfa", eDfa t.dfa), ("markSet", eOpt eNats t.markSet), ("attrs", eAttrDecls t.attrs),
+    ("definingAsContext", Json.bool t.definingAsContext), ("definingForContent", Json.bool t.definingForContent)]
 
 def eMarkType (t : MarkType) : Json :=
   Json.mkObj [("name", Json.str t.name), ("excluded", eNats t.excluded), ("inclusive", Json.bool t.inclusive),
